@@ -193,6 +193,13 @@ def monitor(prop, progs, run):
                 cur[t[1]]["ret"] = i
         def enq(r):
             return r["enq"]
+        if run.status == "deadlock" and "b" not in progs:
+            # `neither readers nor writers can be starved`: no section waits for anything, yet every thread is blocked and these
+            # requests are still waiting (for instance because the wake-up of an admitted request went to another waiter)
+            starved = [r for r in reqs if r["park"] is not None and r["ret"] is None]
+            if starved:
+                msgs.append("request(s) of thread(s) %s never granted: every thread is blocked although no critical section waits for anything (starved)" %
+                            ",".join("%s(%s)" % (r["t"], r["k"]) for r in starved))
         for a in reqs:
             if a["park"] is None:
                 continue
